@@ -10,6 +10,8 @@ NOTE = ('necessary structural conditions are decided on every path / call site /
         '/verif/seeded and /verif/selftest), the oracle tables in DESIGN.md, Linux cfg only.')
 
 CLAIMED = {
+ 'C01': ('must-fill ghost-state abstract interpretation of the read handlers, alignment/interval facts for the zero-once request, data-dependence pairing and dispatch rules',
+         'every Ok(n != 0) of a read handler is preceded by a fill of the caller buffer on all paths, backend read counts are compared with the requested length, zero-once covers exactly the cluster, installed fresh clusters are registered as new, every mapping kind is dispatched; index arithmetic of the lookup/split, overlay order and equality with a reference disk not decided', 'C01'),
  'C02': ('dirty-tracking typestate over the async call graph (tabulating abstract interpretation)',
          'mutation=>dirty, victims=>flusher, cleared=>written, complete sweeps before Ok, zero-once not bypassed, whole-slice writes: decided on all paths of all public operations; byte equality after reopen not decided', 'C02'),
  'C04': ('backend-effect ordering typestate with history closure (tabulating abstract interpretation over MIR)',
